@@ -28,8 +28,11 @@ def record(select: list[str], *, jobs=8, timeout=1500) -> tuple[list, str]:
         path = os.path.join(td, "calls.ndjson")
         env = dict(os.environ, FLOX_VERIF="1", FLOX_VERIF_TRACE=path, PYTHONPATH="/repo", DASK_NUM_WORKERS="2", OMP_NUM_THREADS="1", NUMBA_NUM_THREADS="1")
         cmd = ["/venv/bin/python", "-m", "pytest", "-q", "-p", "no:cacheprovider", "-p", "no:randomly", "-n", str(jobs), "--timeout=600", *select]
-        p = subprocess.run(cmd, cwd="/repo", env=env, stdout=subprocess.PIPE, stderr=subprocess.STDOUT, text=True, timeout=timeout)
-        tail = "\n".join(p.stdout.splitlines()[-3:])
+        try:
+            p = subprocess.run(cmd, cwd="/repo", env=env, stdout=subprocess.PIPE, stderr=subprocess.STDOUT, text=True, timeout=timeout)
+            tail = "\n".join(p.stdout.splitlines()[-3:])
+        except subprocess.TimeoutExpired:
+            tail = "TIMEOUT"
         events = []
         if os.path.exists(path):
             for line in open(path):
